@@ -3,6 +3,10 @@ pub fn randombytes_buf(len: usize) -> Vec<u8> {
     use rand_core::{OsRng, TryRngCore};
 
     let mut r: Vec<u8> = vec![0; len];
+    #[cfg(feature = "verif_hooks")]
+    if verif::try_fill(r.as_mut_slice()) {
+        return r;
+    }
     OsRng
         .try_fill_bytes(r.as_mut_slice())
         .expect("failed to fill random bytes");
@@ -15,7 +19,39 @@ pub fn randombytes_buf(len: usize) -> Vec<u8> {
 pub fn copy_randombytes(dest: &mut [u8]) {
     use rand_core::{OsRng, TryRngCore};
 
+    #[cfg(feature = "verif_hooks")]
+    if verif::try_fill(dest) {
+        return;
+    }
     OsRng
         .try_fill_bytes(dest)
         .expect("failed to fill random bytes");
+}
+
+/// Verification-only seam: lets a simulator install a thread-local byte source
+/// that replaces the OS generator. Compiled only with feature `verif_hooks`.
+#[cfg(feature = "verif_hooks")]
+pub mod verif {
+    use std::cell::RefCell;
+
+    type Source = Box<dyn FnMut(&mut [u8])>;
+
+    thread_local! {
+        static SOURCE: RefCell<Option<Source>> = RefCell::new(None);
+    }
+
+    /// Installs (or, with `None`, removes) the byte source for this thread.
+    pub fn set_source(f: Option<Source>) {
+        SOURCE.with(|s| *s.borrow_mut() = f)
+    }
+
+    pub(crate) fn try_fill(dest: &mut [u8]) -> bool {
+        SOURCE.with(|s| match s.borrow_mut().as_mut() {
+            Some(f) => {
+                f(dest);
+                true
+            }
+            None => false,
+        })
+    }
 }
